@@ -2,7 +2,7 @@ package main
 
 // Sixth wave of C03.
 //
-// c03FilterWindow — the handler of a queue compacts its queue (Iterate, then Filter: what
+// c03FilterWindow — the worker of a queue dumps its queue (TaskQueue.String(): Iterate) and the handler of a queue compacts its queue (Iterate, then Filter: what
 // combineBindingContextForHook does from inside the handler) WHILE the real events consumer delivers an
 // event: the delivery is released from inside the callback the queue calls for one of its items, i.e. in
 // the middle of the compaction, and the callback holds on until the consumer is through (or, when the
@@ -49,27 +49,143 @@ import (
 
 // ---------------------------------------------------------------- compaction while the consumer delivers
 
-// stepInto steps the worker of queue n until it is inside its handler (false: it is not going to be).
-func (w *world) stepInto(n int) bool {
+// stepOnce moves the worker of queue n one observable position towards its handler (false: it is inside
+// the handler, or is not going to get there).
+func (w *world) stepOnce(n int) bool {
 	q := w.qs[n]
-	for i := 0; i < 12 && w.bad == ""; i++ {
-		switch {
-		case strings.HasPrefix(q.at, "run:"):
-			return true
-		case q.at == "loop" || q.at == "afterCheck" || q.at == "afterHandler":
-			w.opGo(n)
-		case q.at == "beforeSelect":
-			if q.q.Length() == 0 {
-				return false
-			}
-			w.opSel(n, false)
-		case q.at == "tick":
-			w.opTickGo(n)
-		default:
+	switch {
+	case w.bad != "" || strings.HasPrefix(q.at, "run:"):
+		return false
+	case q.at == "loop" || q.at == "afterCheck" || q.at == "afterHandler":
+		w.opGo(n)
+	case q.at == "beforeSelect":
+		if q.q.Length() == 0 {
 			return false
 		}
+		w.opSel(n, false)
+	case q.at == "tick":
+		w.opTickGo(n)
+	default:
+		return false
 	}
-	return strings.HasPrefix(q.at, "run:")
+	return true
+}
+
+// dumpGate: metadata of a task whose description is asked for by the worker's queue dump
+// (TaskQueue.String(), evaluated by Start() after every wait and after every result: Iterate over the
+// queue, GetDescription of every task). An armed gate runs its function once, from inside that walk.
+type dumpGate struct{ f atomic.Pointer[func()] }
+
+func (g *dumpGate) GetDescription() string {
+	if f := g.f.Swap(nil); f != nil {
+		(*f)()
+	}
+	return "gate"
+}
+
+// opGoDeliver: the worker of queue n, parked at afterCheck (queue not empty) or afterHandler, goes on to
+// its next position; on the way it dumps its queue, and from INSIDE that walk (the description of the
+// first task) an event with the tasks ts is sent through the real consumer; the walk goes on when the
+// consumer is through or after 25 ms. Appends at the tail commute with what the worker does at the head:
+// the model delivers first and then steps (op godeliver).
+func (w *world) opGoDeliver(n int, ts []delivery, viaKube bool, gate *dumpGate) {
+	if w.bad != "" {
+		return
+	}
+	q := w.qs[n]
+	fromCheck := q.at == "afterCheck"
+	before := map[int]string{}
+	for _, m := range w.order {
+		before[m] = itemsOf(w.qs[m].q)
+	}
+	var tasks []task.Task
+	var parts []string
+	for _, d := range ts {
+		t := mkTask(d.t).(*task.BaseTask).WithQueueName(fmt.Sprintf("%s-%d", w.prefix, d.q))
+		t.UpdateMetadata(gate)
+		tasks = append(tasks, t)
+		parts = append(parts, fmt.Sprintf("%d:%d", d.q, d.t))
+	}
+	w.mu.Lock()
+	w.evSeq++
+	key := fmt.Sprintf("ev-%d", w.evSeq)
+	w.pending[key] = tasks
+	w.evSeq++
+	bkey := fmt.Sprintf("ev-%d", w.evSeq)
+	done := make(chan struct{})
+	w.barrier[bkey] = done
+	w.mu.Unlock()
+	var sendFailed atomic.Bool
+	send := func(k string) {
+		ok := false
+		if viaKube {
+			select {
+			case w.kem.ch <- kemtypes.KubeEvent{MonitorId: k}:
+				ok = true
+			case <-time.After(wStepTimeout):
+			}
+		} else {
+			select {
+			case w.sm.Ch() <- k:
+				ok = true
+			case <-time.After(wStepTimeout):
+			}
+		}
+		if !ok {
+			sendFailed.Store(true)
+		}
+	}
+	var once sync.Once
+	fire := func() {
+		once.Do(func() {
+			go func() {
+				send(key)
+				send(bkey)
+			}()
+		})
+	}
+	window := func() {
+		fire()
+		select {
+		case <-done:
+		case <-time.After(25 * time.Millisecond):
+		}
+	}
+	gate.f.Store(&window)
+	opLine := fmt.Sprintf("godeliver %d %s", n, joinStrs(parts))
+	idx := len(w.trace)
+	w.release(q)
+	w.await(q)
+	gate.f.Store(nil)
+	fire()
+	if w.bad == "" {
+		select {
+		case <-done:
+		case <-time.After(wStepTimeout):
+			w.bad = "timeout"
+			hangs.Add(1)
+		}
+	}
+	if sendFailed.Load() && w.bad == "" {
+		w.bad = "timeout"
+		hangs.Add(1)
+	}
+	if w.bad != "" {
+		w.c.Op(opLine, "hang")
+		return
+	}
+	// the model receives first: the arrivals go in front of what the worker's step added to the trace
+	var recv []string
+	for _, d := range ts {
+		recv = append(recv, fmt.Sprintf("r%d:%d", d.q, d.t))
+	}
+	w.trace = append(w.trace[:idx:idx], append(recv, w.trace[idx:]...)...)
+	w.c.Op(opLine, w.obs())
+	for _, m := range w.order {
+		if m != n || fromCheck {
+			w.c.Oracle(fmt.Sprintf("routing q=%d before=%s ts=%s after=%s", m, before[m], joinStrs(parts), itemsOf(w.qs[m].q)))
+		}
+	}
 }
 
 // opFilterDeliver: the handler of queue n (inside its handler) walks its queue (Iterate) and drops the
@@ -233,8 +349,35 @@ func c03FilterWindow(c *Case, rng *Rng) {
 	w.opDeliver(first, rng.Bool(), "deliver")
 	var dropped []int
 	rounds := rng.Range(1, 3)
+	gate := &dumpGate{}
+	arm := func() {
+		w.qs[1].q.Iterate(func(t task.Task) { t.UpdateMetadata(gate) })
+	}
 	for round := 0; round < rounds && w.bad == ""; round++ {
-		if !w.stepInto(1) {
+		// towards the handler; on the way the worker dumps its queue (after the wait, after a result):
+		// half of those steps with an event arriving from inside the dump
+		for i := 0; i < 12; i++ {
+			q := w.qs[1]
+			if (q.at == "afterCheck" || q.at == "afterHandler") && q.q.Length() > 0 && w.bad == "" && rng.Chance(50) {
+				var ts []delivery
+				for j := rng.Range(1, 2); j > 0; j-- {
+					next++
+					qn := 1
+					if rng.Chance(25) {
+						qn = rng.Range(1, nq)
+					}
+					ts = append(ts, delivery{qn, next})
+				}
+				arm()
+				w.opGoDeliver(1, ts, rng.Bool(), gate)
+				c.Note("filterwindow:event-during-queue-dump")
+				continue
+			}
+			if !w.stepOnce(1) {
+				break
+			}
+		}
+		if w.bad != "" || !strings.HasPrefix(w.qs[1].at, "run:") {
 			break
 		}
 		q := w.qs[1]
@@ -285,6 +428,7 @@ func c03FilterWindow(c *Case, rng *Rng) {
 		return
 	}
 	w.oracleLog()
+	c.Desc = fmt.Sprintf("filter-window: %d queue(s), %d task(s) in queue 1, %d compaction(s) by the handler of queue 1 with an event delivered from inside the Iterate/Filter callback; dropped %s", nq, len(first), rounds, joinInts(dropped))
 	c.Oracle(fmt.Sprintf("orderkept q=%s drop=%s ev=%s", w.names(), joinInts(dropped), w.traceStr()))
 	c.Note("kind:filter-window")
 	c.Nontrivial = len(w.trace) >= 10
@@ -299,8 +443,11 @@ type whHook struct {
 }
 
 func c03WebhookName(kind string, h *whHook) string {
-	if kind == "mutating" {
+	switch kind {
+	case "mutating":
 		return "m-" + h.name + ".c03.example.com"
+	case "conversion":
+		return "c-" + h.name + ".c03.example.com"
 	}
 	return "v-" + h.name + ".c03.example.com"
 }
@@ -336,7 +483,9 @@ func (h *whHook) configText() string {
 		}
 	}
 	for _, k := range h.webhooks {
-		if k == "mutating" {
+		if k == "conversion" {
+			fmt.Fprintf(&b, "kubernetesCustomResourceConversion:\n- name: %s\n  crdName: things-%s.c03.example.com\n  conversions:\n  - fromVersion: v1alpha1\n    toVersion: v1beta1\n", c03WebhookName(k, h), h.name)
+		} else if k == "mutating" {
 			fmt.Fprintf(&b, "kubernetesMutating:\n- name: %s\n  rules:\n  - operations: [\"CREATE\", \"UPDATE\"]\n    apiGroups: [\"apps\"]\n    apiVersions: [\"v1\"]\n    resources: [\"deployments\"]\n", c03WebhookName(k, h))
 		} else {
 			fmt.Fprintf(&b, "kubernetesValidating:\n- name: %s\n  rules:\n  - operations: [\"CREATE\"]\n    apiGroups: [\"\"]\n    apiVersions: [\"v1\"]\n    resources: [\"pods\"]\n", c03WebhookName(k, h))
@@ -357,6 +506,7 @@ H=%s
 bs=$(jq -r '.[].binding' "$BINDING_CONTEXT_PATH")
 echo "start $H $$ $(echo $bs | tr ' ' ',')" >> $D/run.log
 if [[ -n "${VALIDATING_RESPONSE_PATH:-}" ]]; then echo '{"allowed":true}' > "$VALIDATING_RESPONSE_PATH"; fi
+if [[ -n "${CONVERSION_RESPONSE_PATH:-}" ]]; then echo '{"convertedObjects":[{"apiVersion":"c03.example.com/v1beta1","kind":"Thing","metadata":{"name":"t"}}]}' > "$CONVERSION_RESPONSE_PATH"; fi
 for b in $bs; do
   while [[ -e $D/block-$H-$b ]]; do sleep 0.005; done
 done
@@ -411,13 +561,11 @@ func c03OperatorWebhook(r *Run, c *Case, rng *Rng) {
 			h.bindings = append(h.bindings, b)
 		}
 		if i == 1 || rng.Chance(50) {
-			h.webhooks = append(h.webhooks, PickOne(rng, []string{"validating", "mutating"}))
-			if rng.Chance(30) {
-				other := "validating"
-				if h.webhooks[0] == "validating" {
-					other = "mutating"
-				}
-				h.webhooks = append(h.webhooks, other)
+			kinds := []string{"validating", "mutating", "conversion"}
+			rng.Shuffle(len(kinds), func(a, b int) { kinds[a], kinds[b] = kinds[b], kinds[a] })
+			h.webhooks = kinds[:1]
+			if rng.Chance(35) {
+				h.webhooks = kinds[:2]
 			}
 		}
 		if i == 1 {
@@ -482,10 +630,32 @@ func c03OperatorWebhook(r *Run, c *Case, rng *Rng) {
 	}
 	ca := filepath.Join(dir, "ca.crt")
 	_ = os.WriteFile(ca, []byte("not a certificate: only read into CABundle\n"), 0o644)
-	admit, err := op.VerifC18InitAdmission(ca, filepath.Join(dir, "tmp"))
-	if err != nil || admit == nil {
-		c.Oracle("opflag what=admission-handler-installed ok=false")
-		return
+	needAdmit, needConv := false, false
+	for _, h := range hooks {
+		for _, k := range h.webhooks {
+			if k == "conversion" {
+				needConv = true
+			} else {
+				needAdmit = true
+			}
+		}
+	}
+	var admitRouter, convRouter http.Handler
+	if needAdmit {
+		admit, err := op.VerifC18InitAdmission(ca, filepath.Join(dir, "tmp"))
+		if err != nil || admit == nil {
+			c.Oracle("opflag what=admission-handler-installed ok=false")
+			return
+		}
+		admitRouter = admit.Router
+	}
+	if needConv {
+		conv := op.VerifC03InitConversion()
+		if conv == nil {
+			c.Oracle("opflag what=conversion-handler-installed ok=false")
+			return
+		}
+		convRouter = conv.Router
 	}
 	rec := &mRecorder{}
 	toTasks := func(ts []task.Task) []mTask {
@@ -779,12 +949,37 @@ func c03OperatorWebhook(r *Run, c *Case, rng *Rng) {
 						answers[i] = "panic"
 					}
 				}()
+				if a.kind == "conversion" {
+					body := fmt.Sprintf(`{"apiVersion":"apiextensions.k8s.io/v1","kind":"ConversionReview","request":{"uid":"c03-%d-%d","desiredAPIVersion":"c03.example.com/v1beta1","objects":[{"apiVersion":"c03.example.com/v1alpha1","kind":"Thing","metadata":{"name":"t"}}]}}`, c.Idx, i)
+					req := httptest.NewRequest(http.MethodPost, "/things-"+a.hook.name+".c03.example.com", bytes.NewReader([]byte(body)))
+					req.Header.Set("Content-Type", "application/json")
+					rr := httptest.NewRecorder()
+					convRouter.ServeHTTP(rr, req)
+					var rv struct {
+						Response *struct {
+							Result struct {
+								Status string `json:"status"`
+							} `json:"result"`
+						} `json:"response"`
+					}
+					switch {
+					case rr.Code != http.StatusOK:
+						answers[i] = fmt.Sprintf("http-%d", rr.Code)
+					case json.Unmarshal(rr.Body.Bytes(), &rv) != nil || rv.Response == nil:
+						answers[i] = "bad-answer"
+					case rv.Response.Result.Status != "Success":
+						answers[i] = "failed"
+					default:
+						answers[i] = "allowed"
+					}
+					return
+				}
 				body := fmt.Sprintf(`{"apiVersion":"admission.k8s.io/v1","kind":"AdmissionReview","request":{"uid":"c03-%d-%d","kind":{"group":"","version":"v1","kind":"Pod"},"resource":{"group":"","version":"v1","resource":"pods"},"name":"p","namespace":"default","operation":"CREATE","object":{"apiVersion":"v1","kind":"Pod","metadata":{"name":"p"}}}}`, c.Idx, i)
 				req := httptest.NewRequest(http.MethodPost, "/x", bytes.NewReader([]byte(body)))
 				req.URL.Path = "/hooks/" + string_helper.SafeURLString(name)
 				req.Header.Set("Content-Type", "application/json")
 				rr := httptest.NewRecorder()
-				admit.Router.ServeHTTP(rr, req)
+				admitRouter.ServeHTTP(rr, req)
 				var rv struct {
 					Response *struct {
 						Allowed bool `json:"allowed"`
@@ -841,7 +1036,8 @@ func c03OperatorWebhook(r *Run, c *Case, rng *Rng) {
 			c.Oracle(fmt.Sprintf("untouched q=%s before=%s after=%s", showQueueName(b.name), b.items, a))
 		}
 		for i := range reqs {
-			c.Oracle(fmt.Sprintf("opflag what=admission-request-%d-of-%s-answered-allowed:%s ok=%v", i, reqs[i].hook.name, answers[i], answers[i] == "allowed"))
+			c.Oracle(fmt.Sprintf("opflag what=%s-request-%d-of-%s-answered-positively:%s ok=%v", reqs[i].kind, i, reqs[i].hook.name, answers[i], answers[i] == "allowed"))
+			c.Note("webhook:request-" + reqs[i].kind)
 		}
 	}
 	c.Oracle(fmt.Sprintf("opflag what=all-queues-drained ok=%v", drained))
